@@ -53,8 +53,9 @@ pub mod nix {
             use vstd::prelude::*;
             use crate::nix::errno::Errno;
             use crate::nix::sys::signal::SigSet;
-            #[verifier::external_body] #[derive(Clone, Copy, Debug)]
-            pub struct siginfo { _p: () }
+            /// (libc::signalfd_siginfo: the fields a caller can look at -- plain data, no invariant)
+            #[derive(Clone, Copy, Debug)]
+            pub struct siginfo { pub ssi_signo: u32, pub ssi_errno: i32, pub ssi_code: i32, pub ssi_pid: u32, pub ssi_uid: u32, pub ssi_fd: i32, pub ssi_status: i32 }
             #[derive(Clone, Copy)]
             pub struct SfdFlags { pub bits: i32 }
             impl SfdFlags {
